@@ -223,10 +223,10 @@ def gen_sqlops():
                 return f".text {lean_chars(p[1])}"
             return f".hole {p[1]} " + ("none" if p[2] is None else f"(some {p[2]})")
         body = "none" if d["body"] is None else "some [" + ", ".join(piece(p) for p in d["body"]) + "]"
-        return ("  { name := " + lean_chars("std." + d["name"]) + f", arity := {len(d['params'])}, strength := "
+        return (f"  -- {d['name']}\n  {{ name := " + lean_chars("std." + d["name"]) + f", arity := {len(d['params'])}, strength := "
                 + ("none" if d["strength"] is None else f"some {d['strength']}") + ", coalesce := "
                 + ("none" if d["coalesce"] is None else f"some {lean_chars(d['coalesce'])}")
-                + f", windowFrame := {'true' if d['window_frame'] else 'false'},\n    body := {body} }}   -- {d['name']}")
+                + f", windowFrame := {'true' if d['window_frame'] else 'false'},\n    body := {body} }}")
 
     L.append("/-- operators of the root module of std.sql.prql (used by `generic` and wherever a dialect does not override) -/")
     L.append("def root : List OpDef := [\n" + ",\n".join(opdef(d) for d in mods[""].values()) + "]")
